@@ -10,12 +10,12 @@ CLAIMED = {
     "C10": dict(
         text="Full machine-checked proof over the scheduler model: non-overlap, atomicity of transactions, drop reasons, final order, "
              "descending sequential splicing = simultaneous substitution, rollback on invalid result; for all rewrite sets, "
-             "transaction/group assignments, yield orders, ignore predicates and validity predicates (12 theorems, no size bound). "
+             "transaction/group assignments, yield orders, ignore predicates and validity predicates (14 theorems, no size bound; every drop "
+             "is attributed to exactly one of: ignored, duplicate of an earlier-visited equal rewrite, overlap with an accepted rewrite, rolled-back transaction). "
              "The model is tied to processing.chain/fix/_schedule_rewrites by differential suites on every run.",
         design="4/C10",
         note="Trusted: Lean kernel, hand model Sched.lean tied by sched-random/sched-exhaustive/fixloop suites; _do_rewrite beyond the "
-             "pure splice (indent repair, pass insertion, difflib minimisation) is a parameter; the duplicate-elimination drop reason "
-             "is modelled and checked by correspondence and by the statement-level oracle, its top-level theorem is not yet proved.",
+             "pure splice (indent repair, pass insertion, difflib minimisation) is a parameter.",
         technique="Lean 4 proof (induction over the accept loop and rule groups) + differential correspondence with the real scheduler",
     ),
     "C17": dict(
@@ -42,11 +42,14 @@ CLAIMED = {
     "C16": dict(
         text="Machine-checked proof on the control skeleton: a statement that the is_blocking model reports blocking never completes normally "
              "(inside a loop: surely leaves the function) under every oracle = every valuation of unknown tests and iteration counts, every fuel; "
-             "deleting what follows a blocking statement preserves outcome and consumed oracle stream. 5 theorems. The model equals core.is_blocking on "
-             "all enumerated statement shapes; the semantics equals CPython on instrumented functions.",
+             "deleting what follows a blocking statement preserves outcome and consumed oracle stream; and has_side_effect's model answers False only for "
+             "expressions in which no position (comprehension element, condition, slice, f-string, keyword value, lambda default) holds a store, a control transfer or a "
+             "call to a callee outside the whitelist (pure_sound). 6 theorems. The models equal core.is_blocking on all enumerated statement shapes and core.has_side_effect "
+             "on every expression node of the corpus x 3 whitelists; the semantics equals CPython on instrumented functions.",
         design="4/C16",
-        note="Trusted: Lean kernel; Flow.lean tied by suites blocking (exhaustive shapes) and exec (CPython); has_side_effect has no Lean model (position "
-             "probe + execution oracle only); loop else / try are outside the skeleton fragment.",
+        note="Trusted: Lean kernel; Flow.lean tied by suites blocking (exhaustive shapes) and exec (CPython); SideEffect.lean tied by suite sideeffect "
+             "(expressions and simple statements; If / For / def statements of has_side_effect are outside it); that whitelisted callees are themselves effect-free is "
+             "an assumption (one recorded finding: sorted(key=g)); loop else / try are outside the skeleton fragment.",
         technique="Lean 4 proof (simultaneous induction on fuel for statements and statement lists) + exhaustive-shape correspondence + all-valuation execution oracle",
     ),
     "C20": dict(
